@@ -38,22 +38,40 @@ def fit_gamma_form(s, logd):
             "resid": float(np.max(np.abs(res))), "scale": float(max(np.max(np.abs(y)), 1.0))}
 
 
+def locate_bulk(logd_fn, lo=-15.0, hi=15.0):
+    """log10 of the point where the density of log(s), i.e. logd(s) + log(s), is largest on 1e-15..1e15
+    (exists for every proper density on s > 0, also for monotone ones such as Gamma with shape <= 1).
+    Coarse half-decade scan, then a 0.05-decade scan around the best point.  None when nothing is finite."""
+    def g(t):
+        with np.errstate(all="ignore"):
+            try:
+                v = float(logd_fn(10.0 ** t)) + t * math.log(10.0)
+            except (FloatingPointError, OverflowError, ZeroDivisionError):
+                return -np.inf
+        return v if np.isfinite(v) else -np.inf
+    ts = np.arange(lo, hi + 1e-9, 0.5)
+    vs = np.array([g(t) for t in ts])
+    if not np.any(np.isfinite(vs)):
+        return None
+    t0 = ts[int(np.argmax(vs))]
+    ts2 = np.arange(t0 - 0.5, t0 + 0.5 + 1e-9, 0.05)
+    vs2 = np.array([g(t) for t in ts2])
+    return float(ts2[int(np.argmax(vs2))])
+
+
 def read_off(logd_fn, n=13, decades=3.0):
-    """Two-pass read-off of the Gamma form of `logd_fn` (a scalar function of s > 0):
-    a coarse pass on 1e-3..1e3 locates the bulk (shape/rate), a second pass spans `decades`
-    decades around it.  Returns (fit dict or None, grid, values)."""
-    g0 = 10.0 ** np.linspace(-3, 3, 19)
-    v0 = np.array([logd_fn(x) for x in g0], dtype=float)
-    f0 = fit_gamma_form(g0, v0)
-    if f0 is None:
-        return None, g0, v0
-    center = f0["shape"] / f0["rate"] if (f0["rate"] > 0 and f0["shape"] > 0) else 1.0
-    if not np.isfinite(center) or center <= 0:
-        center = 1.0
-    center = min(max(center, 1e-8), 1e8)
+    """Read-off of the Gamma form of `logd_fn` (a scalar function of s > 0) over `decades` decades around the
+    bulk of the density itself (located on 1e-15..1e15, so that extreme but legal scales are judged where the
+    mass is).  Returns (fit dict or None, grid, values)."""
+    t = locate_bulk(logd_fn)
+    center = 1.0 if t is None else 10.0 ** t
     g = log_grid(center, decades, n)
-    v = np.array([logd_fn(x) for x in g], dtype=float)
-    return fit_gamma_form(g, v), g, v
+    with np.errstate(all="ignore"):
+        v = np.array([logd_fn(x) for x in g], dtype=float)
+    fit = fit_gamma_form(g, v)
+    if fit is not None:
+        fit["center"] = float(center)
+    return fit, g, v
 
 
 def conjugate_update(m, quad, alpha, beta):
@@ -94,7 +112,7 @@ def selftest():
     bad = []
     rs = np.random.RandomState(12345)
     # 1. the read-off recovers the parameters of scipy's gamma log-density
-    for shape, rate in ((1.0, 1e-4), (0.3, 2.0), (51.0, 730.0), (7.5, 0.02)):
+    for shape, rate in ((1.0, 1e-4), (0.3, 2.0), (51.0, 730.0), (7.5, 0.02), (11.0, 1e-10), (2.5, 3e11), (0.8, 1e-13)):
         f, g, v = read_off(lambda s: float(stats.gamma.logpdf(s, a=shape, scale=1.0 / rate)))
         if f is None or abs(f["shape"] - shape) > 1e-8 * max(1, shape) or abs(f["rate"] - rate) > 1e-8 * rate or f["resid"] > 1e-9 * f["scale"]:
             bad.append(f"read-off of scipy gamma({shape},{rate}) gave {f}")
